@@ -7,55 +7,55 @@ ALL = ["C%02d" % i for i in range(1, 21)]
 PBT = "property-based testing (proptest): "
 CHECKS = {
     "C01": dict(engine="core(sched+api)", technique=PBT + "generated multi-threaded programs + generated schedules at hook-site granularity (stateful model-based, baton scheduler); oracle: exactly-once multiset equality with the reference model and delivery deadlines per cycle/flush",
-                text="Exploration: 15k hooked-scheduler cases + 9k public-API cases per quick run, each compared with a reference model (exactly once, nothing invented, delivered by the first complete cycle / by flush()). Schedules are sampled at push/drain/empty-pop granularity, so cross-thread drain races and thread-exit races are reached deterministically; absence is not established.",
+                text="Exploration: 30k hooked-scheduler cases + 18k public-API cases per quick run (x20 in the thorough tier), each compared with a reference model (exactly once, nothing invented, delivered by the first complete cycle / by flush()). Schedules are sampled at push/drain/empty-pop granularity, so cross-thread drain races and thread-exit races are reached deterministically; absence is not established.",
                 note="Trusts the baton scheduler (one vthread at a time), the hook sites as the only relevant interleaving points (rtrb treated as a linearizable queue), and the harness's sink reporter. The free-running background thread's latency ('about one interval') is not decided here."),
     "C02": dict(engine="core(api)", technique=PBT + "generated span-tree programs; oracle: delivered (trace id, parent id) multiset per span name equals the reference model's tree, ids non-zero and distinct",
-                text="Exploration: 24k generated programs per quick run in both collector configurations; every delivered record is matched by unique name to a model span and its trace/parent ids are compared with the model tree.",
+                text="Exploration: 72k generated programs per quick run in both collector configurations (640k thorough); every delivered record is matched by unique name to a model span and its trace/parent ids are compared with the model tree.",
                 note="Parent ids are resolved through the parent's delivered record (fallback: id reported by from_span). Id collisions of probability 2^-32 are not reachable."),
     "C03": dict(engine="core(sched+api)", technique=PBT + "generated programs + schedules in cancelable mode; oracle: one report() batch per trace containing root and must-set (spans finished before the root by baton happens-before)",
-                text="Exploration: 15k scheduled + 9k API cases per quick run; batch structure of every trace checked against must/may sets derived from real happens-before. The known inconsistent-cut finding is recognised by an exact structural predicate and everything else is still checked.",
+                text="Exploration: 45k scheduled + 27k API cases per quick run; batch structure of every trace checked against must/may sets derived from real happens-before. The known inconsistent-cut finding is recognised by an exact structural predicate and everything else is still checked.",
                 note="Same trusted base as C01. Known findings are listed in known_findings.json and matched by exact signature."),
     "C04": dict(engine="core(sched+api)", technique=PBT + "generated cancel histories incl. ring-full fault injection; oracle: no record of a cancelled trace in any batch, other traces as C03, no-op cancels metamorphic (delivery as if absent)",
-                text="Exploration: 12k scheduled (both configs, with queue-fill episodes) + 9k API cases per quick run.",
+                text="Exploration: 36k scheduled (both configs, with queue-fill episodes) + 27k API cases per quick run.",
                 note="Same trusted base as C01; ring capacity fixed at the compiled-in 10240."),
     "C05": dict(engine="core(api)", technique=PBT + "generated programs mixing sampled/unsampled roots; oracle: nothing carrying an unsampled item is delivered, mixed-parent spans/scopes delivered exactly in sampled parents' traces, extracted contexts carry the flag",
-                text="Exploration: 24k programs per quick run, both configurations.",
+                text="Exploration: 72k programs per quick run, both configurations (640k thorough).",
                 note="Matching by unique generated names/keys."),
     "C06": dict(engine="core(api)", technique=PBT + "generated attachment programs with arbitrary Unicode; oracle: each attachment exactly once on its target record(s), nowhere else, values byte-identical, per-route order preserved",
-                text="Exploration: 24k programs per quick run, both configurations, flush() cycles at any operation boundary between attachment and finish.",
+                text="Exploration: 72k programs per quick run, both configurations, flush() cycles at any operation boundary between attachment and finish.",
                 note="Must/may classification follows the property's own precondition. Shapes of the known dup-unit finding are excluded by construction and counted."),
     "C07": dict(engine="core(api+sched)", technique=PBT + "generated API call sequences in every listed state (no reporter, no-op/unsampled/empty parents, re-entrant closures, full queue, exceeded limits, thread-local teardown); oracle: every call returns (catch_unwind per call; process abort = violation; an operation that needed another vthread deadlocks the scheduler)",
-                text="Exploration: ~10k in-process sequences (incl. re-entrant mini programs inside property/event closures), 2.4k sequences without a reporter, 2.4k scheduled sequences with ring-fill episodes, limit bursts and 600 thread-local-teardown cases on fresh OS threads per quick run.",
+                text="Exploration: ~19k in-process sequences (incl. re-entrant mini programs inside property/event closures), 4.8k sequences without a reporter, 4.8k scheduled sequences with ring-fill episodes, limit bursts and 1200 thread-local-teardown cases on fresh OS threads per quick run.",
                 note="Debug assertions are ON in the harness profile (as in the repository's own dev-profile suite). Blocking is detected only as scheduler deadlock / watchdog expiry."),
     "C08": dict(engine="core(sched)", technique=PBT + "generated trace/thread histories + schedules; oracle: collector_stats() zero at quiescence and bounded by in-flight traces/live threads at every idle point",
-                text="Exploration: 24k scheduled histories per quick run in both configurations, stats sampled after every cycle.",
+                text="Exploration: 72k scheduled histories per quick run in both configurations, stats sampled after every cycle.",
                 note="Only the four counters exposed by the verification hook are observed."),
     "C09": dict(engine="core(sched+api)", level="fault_enumeration", technique=PBT + "fault injection: generated ring-fill episodes and scope-limit bursts inside generated programs and schedules; oracle: missing subset of permitted (submits logged as dropped with free==0), delivered records correct, per-ring order of commit/drop commands issued == received, recovery complete",
-                text="Fault enumeration by generation: ~12k scheduled cases with ring-fill episodes (0-3 slots left) plus ~600 scope/nesting-limit bursts per quick run; every full-queue push and its outcome is observed through the hooks and the oracle admits only those omissions.",
+                text="Fault enumeration by generation: ~18k scheduled cases with ring-fill episodes (0-3 slots left) plus ~900 scope/nesting-limit bursts per quick run; every full-queue push and its outcome is observed through the hooks and the oracle admits only those omissions.",
                 note="Ring capacity, scope capacity and nesting limit are the compiled-in constants. Hook log (command issued / pushed / received per ring) is trusted."),
     "C10": dict(engine="core(api)", technique=PBT + "generated well-nested scope sequences with context probes; oracle: metamorphic frame condition (observation after close == before open, same context version => same observation) and inertness without scope",
-                text="Exploration: 24k programs per quick run.",
+                text="Exploration: 72k programs per quick run.",
                 note="The observation is current_local_parent(), the parent of a probe span and the record a probe event lands on."),
     "C11": dict(engine="core(api)", technique=PBT + "generated extraction points; oracle: returned (trace, span, sampled) equals the model's span, matched to the delivered record by name; remote children delivered under it",
-                text="Exploration: 24k programs per quick run, both configurations.",
+                text="Exploration: 72k programs per quick run, both configurations (640k thorough).",
                 note="The shape of a known panic (C07) is excluded by construction and counted."),
     "C12": dict(engine="codec(+libFuzzer)", technique=PBT + "generated contexts (boundary classes) and near-valid traceparent strings (22 mutation kinds) + coverage-guided libFuzzer target with the same oracle; oracle: round trip, fixed output form, differential against an independent reference parser, no panic",
-                text="Exploration: 780k generated cases per quick run; thorough adds 42M cases and a 3 min libFuzzer campaign (oracle inside the target).",
+                text="Exploration: 3.2M generated cases per quick run; thorough adds 22M cases and a 3 min libFuzzer campaign (oracle inside the target).",
                 note="The reference parser implements only the property's sentence; inputs that are valid hex but not canonical are only required to decode to the denoted values when accepted."),
     "C13": dict(engine="core(api+sched)", technique=PBT + "scripted inner futures whose per-poll actions are generated, wrapped by in_span/enter_on_poll and driven by generated poll/drop operations from generated vthreads; oracle: local parent inside each poll, frame condition after it, span delivered exactly at completion/drop (cycle deadline + monotonic bracket), final poll's recordings in the delivered trace, one enter_on_poll span per poll",
-                text="Exploration: 13.5k API cases (real flush() cycles) and 8.4k scheduled cases (collector steps inside the completing poll) per quick run, both configurations.",
+                text="Exploration: 27k API cases (real flush() cycles) and 17k scheduled cases (collector steps inside the completing poll) per quick run, both configurations.",
                 note="The inner future is the harness's scripted object; executors, wakers and real I/O are out of scope. Same trusted base as C01 for the scheduled part."),
     "C14": dict(engine="core(api+sched)", technique=PBT + "scripted inner streams/sinks wrapped by fastrace_futures::in_span with generated call sequences over the five entry points; oracle as C13 per entry point",
-                text="Exploration: 13.5k API cases and 8.4k scheduled cases per quick run, both configurations.",
+                text="Exploration: 27k API cases and 17k scheduled cases per quick run, both configurations.",
                 note="For poll_close -> Ready(Err) only exactly-once delivery and 'not before that call' are asserted."),
     "C16": dict(engine="core(disabled+api)", technique=PBT + "the same generated programs compiled against fastrace without the enable feature, and with it for non-recording spans; oracle: invocation counters in every closure, zero report() calls, no threads, None contexts/elapsed, empty conversions",
-                text="Exploration: 12k programs against the disabled build and 12k against the enabled build (no-op derived spans, no local parent) per quick run.",
+                text="Exploration: 18k programs against the disabled build and 18k against the enabled build (no-op derived spans, no local parent) per quick run.",
                 note="Thread check reads /proc/self/task of the worker process."),
     "C17": dict(engine="core(api)", technique=PBT + "generated local-span forests pushed to N parents and converted; oracle: copies identical up to trace/root parent, to_span_records equals a pushed copy, open spans end inside the collect() bracket",
-                text="Exploration: 24k programs per quick run, both configurations.",
+                text="Exploration: 72k programs per quick run, both configurations (640k thorough).",
                 note="Durations compared exactly within a batch, +-2ns across batches; brackets read the library's own monotonic clock (fastant)."),
     "C18": dict(engine="core(api)", technique=PBT + "generated programs with busy-wait spins; oracle: durations inside harness-side monotonic brackets, begin times inside the run's wall-clock window, exact nesting of local spans and events",
-                text="Exploration: 8k programs per quick run, both configurations.",
+                text="Exploration: 24k programs per quick run, both configurations (640k thorough).",
                 note="Brackets use fastant::Instant (the library's clock); wall-clock window +-50ms."),
 }
 
@@ -63,11 +63,11 @@ CHECKS["C19"] = dict(engine="reporters", technique=PBT + "generated SpanRecord b
     text="Exploration: 1.8k Jaeger batches, 2k OpenTelemetry batches, 360 Datadog batches (one HTTP request each) per quick run, 0-400 records each.",
     note="Decoders are written from the wire-format specifications and jaeger.thrift / the v0.4 key set; a real agent's acceptance is not tested. A kernel-side datagram drop makes a case inconclusive, never a violation.")
 CHECKS["C20"] = dict(engine="reporters(+libFuzzer)", technique=PBT + "generated size plans (tiny/medium/near-limit/oversize spans, totals straddling 8000 bytes) realised with an independent reference Thrift encoder + libFuzzer target decoding bytes into size plans; oracle: every datagram < 8000 bytes, transmitted spans == exactly the records that fit alone, once and in order, call terminates",
-    text="Exploration: 4.2k batches per quick run; thorough adds 112k batches and a 5 min libFuzzer campaign through the real UDP path.",
+    text="Exploration: 12.6k batches per quick run; thorough adds 420k batches and a 5 min libFuzzer campaign through the real UDP path.",
     note="The reference encoder is validated against the real single-span datagrams on every single-record case; sizes within +-10 bytes of the limit are undecided.")
 
 CHECKS["C15"] = dict(engine="macrogen+macro_case", technique=PBT + "GENERATED RUST SOURCE: twin functions (annotated / plain, identical bodies) from a signature+body grammar compiled against /repo/fastrace-macro, then differential execution with generated arguments and tracing contexts; oracle: equal return value / panic payload / side-effect log / &mut arguments, exactly one span per call (per poll with enter_on_poll) with name from the plain twin's func_path!(), properties equal to the same format strings evaluated by the harness, parent = caller's local parent, nested traced calls as a tree",
-    text="Exploration: one batch of 150 generated function pairs (11 signature shapes) and 42k generated calls per quick run; thorough: 700 pairs and 560k calls.",
+    text="Exploration: one batch of 150 generated function pairs (12 signature shapes) and 84k generated calls per quick run; thorough: 700 pairs and 560k calls.",
     note="Shapes the grammar does not produce (const generics, unsafe, extern, impl Trait returns) are not covered; async-trait methods are generated with name/short_name only; argument drop order is not compared (unclaimed). Compile-time diagnostics stay with the repository's ui tests.")
 
 NOT_YET = "check not built yet (work in progress; see DESIGN.md section 4 for the planned check)"
